@@ -222,7 +222,10 @@ func runWorker(args []string) int {
 				flushed = rep.NViol
 				write() // keep what was found even if a later case kills the process
 			}
-			if rep.NViol >= 10 || len(rep.Harness) >= 3 || rep.Counters["nonterminating_evaluations"] >= 3 {
+			if mon.BudgetHits.Load() >= 3 && rep.NViol == 0 {
+				rep.Harness = append(rep.Harness, fmt.Sprintf("%s: three evaluations exhausted the navigator-op budget of %d and the monitor reported none of them (last case %s)", id, mon.OpLimit, key))
+			}
+			if rep.NViol >= 10 || len(rep.Harness) >= 3 || rep.Counters["nonterminating_evaluations"] >= 3 || mon.BudgetHits.Load() >= 3 {
 				res.StoppedEarly = true
 				write()
 				return 0
